@@ -435,8 +435,12 @@ def evFlag (st : State) : Entry → State
   | .all => { st with githubChanged := true, batchChanged := true, stateChanged := true }
 
 /-- the GitHub refresh fails at its first request (`gh.getitem(…/git/refs/heads/<branch>)` raises): the pass of `_update` is
-aborted by the exception; `github_changed` was already cleared, nothing else has happened -/
-def evGithubFailed (st : State) : State := { st with githubChanged := false }
+aborted by the exception.  `github_changed` was cleared before the call and is set again by the `except BaseException` around
+`_update_github` (commit 9f64769b0); nothing else has happened. -/
+def evGithubFailed (st : State) : State := { st with githubChanged := true }
+
+/-- the same step BEFORE commit 9f64769b0: the flag stayed cleared -/
+def evGithubFailedOld (st : State) : State := { st with githubChanged := false }
 
 inductive Event where
   | flag (e : Entry)
